@@ -519,10 +519,12 @@ def enc_val(v):
         return [A("i"), A(str(v))]
     if v is None:
         return A("none")
-    if isinstance(v, str):
-        return [A("s"), v]
     if isinstance(v, enum.Enum):
         return [A("e"), type(v).__name__, v.name]
+    if type(v) is str:
+        return [A("s"), v]
+    if isinstance(v, str):
+        return [A("o"), str(type(v)), str(v)]      # a str subclass: what counts is its own str()
     if isinstance(v, tuple):
         return [A("t")] + [enc_val(x) for x in v]
     if isinstance(v, frozenset):
